@@ -107,6 +107,16 @@ Theorem C12_wrapper_recognised :
 Proof. exact loaders_wrapper. Qed.
 Print Assumptions C12_wrapper_recognised.
 
+(* an accepted envelope carries in-toto's payload type: some member matched to the
+   payloadType field (exactly, or by encoding/json's case folding) has that value *)
+Theorem C12_dsse_payload_type :
+  forall (b64json : str -> option jv) file r,
+    load_metadata b64json file = Ok r -> ld_wrapper r = DSSE ->
+    exists m k, file = Some (JObj m) /\ In (k, JStr c_PayloadType) m /\
+      find_field (struct_fields sh_envelope) k = Some (fld "payloadType" false SStr).
+Proof. exact dsse_payload_type_in_file. Qed.
+Print Assumptions C12_dsse_payload_type.
+
 (* the deprecated loader (on a fresh Metablock) is the agnostic loader on files
    without a payloadType member *)
 Theorem C12_loaders_agree :
